@@ -172,7 +172,8 @@ pub fn on_get_return(w: &mut MWorld, opi: usize) {
                 .any(|c| w.calls[*c].res == CallRes::Panic);
         if !expected {
             let d = format!("get() panicked: {msg}");
-            let p = w.sc.profile.clone();
+            // a panic raised by the harness's own code is a harness error, not a verdict
+            let p = if msg.contains(" at dsim/src/") || msg.contains(" at simcore/") { "HARNESS".to_string() } else { w.sc.profile.clone() };
             w.violate(&p, "unexpected_panic", d);
         }
     }
@@ -333,7 +334,7 @@ pub fn on_retain_done(w: &mut MWorld, opi: usize) {
 fn check_sync_panic(w: &mut MWorld, opi: usize) {
     if let Some(OpRes::Panicked { msg, .. }) = &w.ops[opi].result {
         let d = format!("{:?} panicked: {}", w.ops[opi].op, msg);
-        let p = w.sc.profile.clone();
+        let p = if msg.contains(" at dsim/src/") || msg.contains(" at simcore/") { "HARNESS".to_string() } else { w.sc.profile.clone() };
         w.violate(&p, "unexpected_panic", d);
     }
 }
@@ -1706,17 +1707,20 @@ pub fn c07_on_create(w: &mut MWorld, ci: usize) {
         .iter()
         .filter(|o| matches!(o.op, Op::Return { .. }) && o.return_step.is_none())
         .filter_map(|o| o.target)
-        .filter(|id| w.objs[*id as usize].destroyed.is_none())
+        .filter(|id| {
+            let o = &w.objs[*id as usize];
+            o.destroyed.is_none() && !o.taken && !o.retain_removed
+        })
         .collect();
-    if total - in_transit.len() > n {
+    if total.saturating_sub(in_transit.len()) > n {
         let d = format!(
             "a get() admitted after resize({n}) returned creates an object although {} already exist or are being created",
-            total - 1 - in_transit.len()
+            total.saturating_sub(1 + in_transit.len())
         );
         w.violate("C07", "admitted_over_limit", d);
     } else if total > n {
         w.cnt.probe("admission_judged_after_pending_returns");
-        w.orc.deferred_admissions.push((n, total - in_transit.len(), in_transit));
+        w.orc.deferred_admissions.push((n, total.saturating_sub(in_transit.len()), in_transit));
     } else {
         w.cnt.probe("create_after_resize_within_limit");
     }
